@@ -32,6 +32,12 @@ def lean():
     return _LEAN
 
 
+def verdicts(line, obs):
+    """per-call verdicts of Spec.C19 (ok / stop / bad) — used for the distribution evidence only"""
+    v = lean().ask(f"ubootv {line} || {obs}")
+    return [] if v in (".", "bad-op") else v.split(",")
+
+
 def make_machine(prompt: bytes, chunk=None, channel_cls=None):
     """an un-entered UBootShell on a fresh simulated console; returns (machine, io, console)"""
     con = ubootsim.Console(prompt)
